@@ -303,12 +303,31 @@ def run(ctx):
 
     def do_validate(item):
         tag, path = item
-        return item, vlib.validate_executions(ctx, TMOD, tcfg, path, tag=tag, timeout=1500, heap="6g")
+        return item, vlib.validate_executions(ctx, TMOD, tcfg, path, tag=tag, timeout=1500, heap="3g")
+
+    def shards(tag, path, recs, limit=9000):
+        """split a recorded file into files of whole executions (one JVM each, validated in parallel)"""
+        ex = vlib.split_executions(recs)
+        out, cur, n = [], [], 0
+        for e in ex:
+            if cur and n + len(e) > limit:
+                out.append(cur); cur, n = [], 0
+            cur.append(e); n += len(e)
+        if cur:
+            out.append(cur)
+        res = []
+        for k, grp in enumerate(out):
+            sp_ = ctx.path(f"shard_{tag}_{k}.ndjson")
+            vlib.write_ndjson(sp_, [r for e in grp for r in e])
+            res.append((f"{tag}{k}", sp_))
+        return res
 
     maxnamed = 0
+    work = []
     for tag, path in traces:
         recs = vlib.read_ndjson(path)
         nev += len(recs)
+        work += shards(tag, path, recs)
         for rec in recs:
             kinds[rec.get("e")] = kinds.get(rec.get("e"), 0) + 1
             if rec.get("fh", 0) > 0:
@@ -323,7 +342,7 @@ def run(ctx):
             s = [dict((k, v) for k, v in r.items() if k != "p") for r in recs[3:6]]
             ctx.add_sample({"source": tag, "events": s})
     with ThreadPoolExecutor(max_workers=6) as ex:
-        for (tag, path), rej in ex.map(do_validate, traces):
+        for (tag, path), rej in ex.map(do_validate, work):
             for x in rej:
                 bad = x["records"][x["index"]] if x["index"] < len(x["records"]) else {"e": "END"}
                 # name the failed clause (best effort): the projection clauses as invariants
